@@ -4,7 +4,9 @@
 package gen
 
 import (
+	"fmt"
 	"strings"
+	"unicode/utf8"
 
 	"pgregory.net/rapid"
 
@@ -280,7 +282,11 @@ func ListLen(t *rapid.T, label string, min int, o Opts) int {
 	case k < 19:
 		n = rapid.IntRange(5, 20).Draw(t, label+".n")
 	default:
-		n = rapid.IntRange(21, 200).Draw(t, label+".n")
+		if rapid.Bool().Draw(t, label+".nb") {
+			n = rapid.SampledFrom([]int{127, 128, 129, 255, 256}).Draw(t, label+".n")
+		} else {
+			n = rapid.IntRange(21, 200).Draw(t, label+".n")
+		}
 	}
 	if n < min {
 		n = min
@@ -298,6 +304,34 @@ func UserProps(t *rapid.T, label string, o Opts) []model.KV {
 		inner.NoHuge = true
 	}
 	out := make([]model.KV, 0, n)
+	// sometimes a list with a shape: all elements equal, keys ascending, or
+	// one element with an empty value
+	if n >= 2 && rapid.IntRange(0, 5).Draw(t, label+".shape") == 0 {
+		sh := inner
+		sh.NoHuge = true // a counter is appended to the key: stay below 65 535 bytes
+		k := NonEmptyStr(t, label+".k", sh)
+		v := Str(t, label+".v", sh)
+		switch rapid.IntRange(0, 2).Draw(t, label+".shapekind") {
+		case 0:
+			for i := 0; i < n; i++ {
+				out = append(out, model.KV{K: k, V: v})
+			}
+		case 1:
+			for i := 0; i < n; i++ {
+				out = append(out, model.KV{K: fmt.Sprintf("%s%04d", k, i), V: v})
+			}
+		default:
+			empty := rapid.IntRange(0, n-1).Draw(t, label+".emptyat")
+			for i := 0; i < n; i++ {
+				kv := model.KV{K: fmt.Sprintf("%s%d", k, i%3), V: v}
+				if i == empty {
+					kv.V = ""
+				}
+				out = append(out, kv)
+			}
+		}
+		return out
+	}
 	for i := 0; i < n; i++ {
 		if i > 0 && rapid.IntRange(0, 5).Draw(t, label+".dup") == 0 {
 			out = append(out, out[rapid.IntRange(0, i-1).Draw(t, label+".dupidx")])
@@ -601,8 +635,76 @@ func Packet(t *rapid.T, typ uint8, o Opts) model.Packet {
 		m.UserProps = UserProps(t, "up", o)
 	}
 	m.XEmptyNonNil = rapid.Bool().Draw(t, "emptynonnil")
+	if !o.Small && rapid.IntRange(0, 7).Draw(t, "correlate") == 0 {
+		correlate(t, &m)
+	}
 	m.Normalize()
 	return m
+}
+
+// correlate makes one string field equal to, or a prefix of, another one
+// (a client identifier that is also the user name, a response topic equal to
+// the topic, a user property value equal to its key ...).
+func correlate(t *rapid.T, m *model.Packet) {
+	var fields []*string
+	add := func(p *string) {
+		fields = append(fields, p)
+	}
+	switch m.Type {
+	case model.CONNECT:
+		add(&m.ClientID)
+		if m.HasUsername {
+			add(&m.Username)
+		}
+		add(&m.AuthMethod)
+		if m.Will != nil {
+			add(&m.Will.Topic)
+			add(&m.Will.ResponseTopic)
+			add(&m.Will.ContentType)
+		}
+	case model.CONNACK:
+		add(&m.ReasonString)
+		add(&m.AssignedClientID)
+		add(&m.ResponseInformation)
+		add(&m.ServerReference)
+		add(&m.AuthMethod)
+	case model.PUBLISH:
+		add(&m.TopicName)
+		add(&m.ResponseTopic)
+		add(&m.ContentType)
+	case model.AUTH:
+		add(&m.ReasonString)
+		add(&m.AuthMethod)
+	}
+	for i := range m.UserProps {
+		add(&m.UserProps[i].K)
+		add(&m.UserProps[i].V)
+	}
+	var src []*string
+	for _, f := range fields {
+		if *f != "" && len(*f) <= 300 {
+			src = append(src, f)
+		}
+	}
+	if len(src) == 0 || len(fields) < 2 {
+		return
+	}
+	from := src[rapid.IntRange(0, len(src)-1).Draw(t, "corr.from")]
+	to := fields[rapid.IntRange(0, len(fields)-1).Draw(t, "corr.to")]
+	if from == to || *to == "" {
+		return // only overwrite fields that are present (keeps domain constraints such as non-empty keys)
+	}
+	v := *from
+	if rapid.IntRange(0, 2).Draw(t, "corr.prefix") == 0 && len(v) > 1 {
+		cut := rapid.IntRange(1, len(v)-1).Draw(t, "corr.cut")
+		for cut > 0 && !utf8.RuneStart(v[cut]) {
+			cut-- // keep valid UTF-8 valid
+		}
+		if cut > 0 {
+			v = v[:cut]
+		}
+	}
+	*to = v
 }
 
 // DisconnectProps adds the three DISCONNECT properties (reason string,
